@@ -32,7 +32,7 @@ T = 'chainables.tree'
 
 
 def run(ctx: Ctx):
-  for r in (r1, r2, r3, r4, r5, r6, r7, r8, r9):
+  for r in (r1, r2, r3, r4, r5, r6, r7, r8, r9, r10, r11):
     ctx.guard(r)
 
 
@@ -527,10 +527,106 @@ def r9(ctx: Ctx):
   ctx.floor(rule, 2, n)
 
 
+def r10(ctx: Ctx):
+  rule = 'R-C18-10'
+  ctx.rule(rule, '"reading a path after a copying set returns the set value": the getter and the setter'
+           ' agree on Key.SELF. Reading stops at SELF and returns the node reached; so the setter'
+           ' must stop there too: in _set_by_path every path from the true edge of its SELF test'
+           ' returns the value being set, without re-binding the key path and descending further.'
+           ' A setter that strips SELF and goes on writes below the node the getter returns: the'
+           ' path no longer reads back what was set')
+  fi = ctx.repo.func(T, 'TreeMapView._set_by_path')
+  g = cfgm.cfg_of(fi.node)
+  ps = fi.params()
+  val = ps[3] if len(ps) > 3 else 'value'
+  tests = [nd for nd in g.nodes if nd.kind == 'cond' and any(
+      isinstance(c, ast.Call) and unparse(c.func) == '_is_key' and len(c.args) == 2 and unparse(c.args[1]) == '_SELF'
+      for c in cfgm.node_exprs(nd))]
+  if not tests:
+    raise AnalysisError(f'{rule}: _set_by_path no longer tests its key for SELF')
+  n = 0
+  for t in tests:
+    n += 1
+    starts = [s_ for s_, lab in t.succ if lab == 'true']
+    is_ret = lambda nd: isinstance(nd.ast, ast.Return) and isinstance(nd.ast.value, ast.Name) and nd.ast.value.id == val
+    bad = None
+    for s_ in starts:
+      if is_ret(s_):
+        continue
+      w = g.must_pass(s_, [g.exit_ret, g.exit_exc], is_ret, cfgm.only_normal)
+      if w is not None:
+        bad = w
+    if bad:
+      ctx.fail(rule, fi, '_set_by_path: SELF ends the path (return the value)',
+               f'when the key is SELF, _set_by_path does not return `{val}` at once (path: '
+               + ' -> '.join(x_.split(':', 2)[-1][:30] for x_ in bad[-4:]) + ') but keeps descending with the rest'
+               ' of the path, whereas reading stops at SELF: copy_and_set(p, v)[p] returns the surrounding'
+               ' (sub)tree instead of v for every path with keys behind SELF', node=t.ast)
+    else:
+      ctx.ok(rule, fi, 'SELF test -> return value', t.ast)
+  ctx.floor(rule, 1, n)
+
+
+def r11(ctx: Ctx):
+  rule = 'R-C18-11'
+  ctx.rule(rule, '"iterating a view lists every leaf exactly once": without user-supplied key paths'
+           ' TreeMapView.__iter__ yields the depth-first enumeration as it is — `yield from'
+           ' _dfs_iter_tree(...)`, or a loop whose yield is not under any condition. The existence'
+           ' filter (`self.get(key) is not None`) belongs to user-supplied key paths only: applied'
+           ' to the enumeration it drops every leaf whose value is None (and every leaf a map_fn'
+           ' maps to None is then left unmapped)')
+  fi = ctx.repo.func(T, 'TreeMapView.__iter__')
+  from mlmverif.core import parent_map
+  pm = parent_map(fi.node)
+  calls = [c for c in ast.walk(fi.node) if isinstance(c, ast.Call) and unparse(c.func) == '_dfs_iter_tree']
+  if not calls:
+    raise AnalysisError(f'{rule}: __iter__ no longer enumerates with _dfs_iter_tree')
+  n = 0
+  for c in calls:
+    n += 1
+    par = pm.get(c)
+    if isinstance(par, ast.YieldFrom):
+      ctx.ok(rule, fi, 'yield from _dfs_iter_tree(...)', c)
+      continue
+    # the enumeration is bound to a name / iterated: every loop over it must yield unconditionally
+    names = set()
+    if isinstance(par, ast.Assign):
+      names = {t.id for t in par.targets if isinstance(t, ast.Name)}
+    loops = [l for l in ast.walk(fi.node) if isinstance(l, ast.For) and (l.iter is c or (
+        isinstance(l.iter, ast.Name) and l.iter.id in names))]
+    filtered = None
+    for l in loops:
+      for y in ast.walk(l):
+        if isinstance(y, (ast.Yield, ast.YieldFrom)):
+          q = pm.get(y)
+          while q is not None and q is not l:
+            if isinstance(q, ast.If):
+              filtered = q
+            q = pm.get(q)
+    if not loops:
+      raise AnalysisError(f'{rule}: cannot follow the depth-first enumeration to a yield')
+    if filtered is not None:
+      ctx.fail(rule, fi, '__iter__: the depth-first enumeration is yielded unfiltered',
+               f'the leaf paths produced by _dfs_iter_tree are only yielded under `{unparse(filtered.test)[:50]}`:'
+               ' a leaf whose value is None is not listed (len, keys(), items() miss it) and apply() leaves every'
+               ' leaf that map_fn maps to None unmapped', node=filtered)
+    else:
+      ctx.ok(rule, fi, 'enumeration yielded unconditionally', c)
+  ctx.floor(rule, 1, n)
+
+
 from mlmverif.selfcheck import B, OK  # noqa: E402
 
 _F = 'chainables/tree.py'
 VARIANTS = [
+    B('setter-strips-self-and-descends', 'chainables/tree.py',
+      '    if key_path == Key() or _is_key(key_path[0], _SELF):\n      return value\n',
+      '    if key_path and _is_key(key_path[0], _SELF):\n      key_path = Key(key_path[1:])\n    if key_path == Key():\n      return value\n', 'R-C18-10'),
+    B('iteration-filters-none-leaves', 'chainables/tree.py',
+      '    if self.key_paths is not None:\n      for key in self.key_paths:\n        if self.get(key) is not None:\n          yield key\n      return\n    yield from _dfs_iter_tree(self.data, Key())',
+      '    key_paths = self.key_paths\n    if key_paths is None:\n      key_paths = _dfs_iter_tree(self.data, Key())\n    for key in key_paths:\n      if self.get(key) is not None:\n        yield key', 'R-C18-11'),
+    OK('iteration-explicit-loop', 'chainables/tree.py',
+       '    yield from _dfs_iter_tree(self.data, Key())', '    for key in _dfs_iter_tree(self.data, Key()):\n      yield key'),
     B('revert-skip-on-empty-tree', 'chainables/tree.py',
       '    # Nothing is written for a skipped key, also when there is no tree yet.\n    if _is_key(key_path[0], _SKIP):\n      return tree\n',
       '', 'R-C18-9'),
